@@ -92,6 +92,10 @@ def run(chk, repo, tier):
     _common.mul_concat(chk, repo, 'C03-p')
     from .prop_flow import own_storage_rule
     own_storage_rule(chk, repo, 'C03-p')
+    # segments stay mutually coherent through a tilt fit: only tip and tilt leave a segment's OPD, never its piston
+    from .extra_rules import fit_tilt_rules as _fit_tilt_rules
+    with chk.guard(['C03-p'], 'plane.Plane.fit_tilt'):
+        _fit_tilt_rules(chk, repo, 'C03-p')
     from .prop_flow import skip_rule as _skip_rule
     _skip_rule(chk, repo, 'C03-p')
     from .prop_flow import per_field_shift_rule as _pfs_rule
@@ -181,6 +185,29 @@ def run(chk, repo, tier):
                f'tilt = {fmt(tilt)}', f.loc(e.node))
 
     # ---------------------------------------------------------------- C03-e
+    # what the constructor caches from the mask (the bounding slices, and anything computed from them): each of these has to
+    # be recomputed wherever the mask is replaced
+    derived = {'_slice'}
+    try:
+        _, ipaths, _ = analyse(repo, repo.func('plane.Plane.__init__'))
+        for p in returns(ipaths) + [q for q in ipaths if q.status == 'fall']:
+            seen_mask = False
+            roots = set()
+            for e in p.events:
+                if e.kind == 'write' and e.data.get('how') == 'attrstore' and e.target == SELF:
+                    at = e.data.get('attr')
+                    if at == '_mask':
+                        seen_mask = True
+                        roots |= {x for x in nf.value_atoms(e.data.get('value')) if x[0] in ('app', 'idx')}
+                        roots |= {nf.attr(SELF, '_mask').single_atom(), nf.attr(SELF, 'mask').single_atom()}
+                    elif seen_mask and at not in ('_mask',) and e.data.get('value') is not None:
+                        va = nf.value_atoms(e.data['value'])
+                        dep = {nf.attr(SELF, d).single_atom() for d in derived} | {nf.attr(SELF, 'shape').single_atom(),
+                                                                                    nf.attr(SELF, 'size').single_atom()}
+                        if at.startswith('_') and ((va & roots and at == '_slice') or (va & dep)):
+                            derived.add(at)
+    except AnalysisError:
+        pass
     n = 0
     for fn in repo.all_functions():
         if fn.module.name != 'plane':
@@ -217,6 +244,15 @@ def run(chk, repo, tier):
                         mine = {x for x in mine if x[0] in ('sym', 'attr', 'app', 'idx', 'fresh')}
                         reads = nf.value_atoms(e.data['value']) | {x for c, _, _ in p.conds for x in nf.value_atoms(c)}
                         good = True if (mine & reads) else None
+                stale = [d for d in sorted(derived - {'_slice'})
+                         if not any(e.kind == 'write' and e.data.get('how') == 'attrstore' and e.data.get('attr') == d and e.target == obj
+                                    for e in p.events[i + 1:])]
+                if stale and good is not False:
+                    ok = False
+                    det = (f'{fmt(obj)[:40]}._mask is replaced but {", ".join("." + d for d in stale)}, which the constructor computes from '
+                           f'the mask, keeps its old value')
+                    where = fn.loc(last.node)
+                    continue
                 if good is None:
                     ok = None if ok else ok
                     det = f'{fmt(obj)[:40]}._slice is refreshed with {fmt(fresh[-1].data["value"])[:60]}; its dependence on the mask is not visible'
